@@ -4,7 +4,8 @@ Engine P.  The polynomial maps (sl2_irrep, sl2_to_so21, slc_to_slr, block_includ
 by evaluation on integer product grids (a polynomial of degree <= d in each variable that
 vanishes on a product grid with d+1 values per variable is identically zero); the rational /
 non-polynomial maps (adjoints, SL(2,C) -> SO(3,1), o_to_pgl) are checked on complete finite
-exact alphabets.  Oracles: mc/oracle/rep_model.py.
+exact alphabets; the adjoints additionally under every combination of their optional keyword arguments
+(inv=, like=, dtype=) and input dtypes (float64, float32, int64, int32).  Oracles: mc/oracle/rep_model.py.
 """
 import itertools
 import os
@@ -433,6 +434,145 @@ def case_adjoint(case):
 
 
 # ------------------------------------------------------------------------------------------
+# 4b. the adjoints under every combination of their optional keyword arguments and input dtypes
+# ------------------------------------------------------------------------------------------
+ADJ_PACKS = ["f64", "f32", "i64", "i32"]
+ADJ_INV = ["none", "float64", "same-dtype"]
+ADJ_LIKE = ["none", "float64-array", "pyfloat", "input"]
+ADJ_DTYPE = ["none", "str", "type"]
+
+
+def slz_extras(n):
+    """Elements of SL(n,Z) with a NON-symmetric inverse; several have a floating-point inverse that is not bit-exact
+    (np.linalg.inv of [[2,1,0],[1,1,0],[3,1,1]] has entries 0.9999999999999998)."""
+    if n == 2:
+        return [np.array(m, dtype="float64") for m in ([[2, 1], [1, 1]], [[3, 2], [4, 3]], [[5, 3], [3, 2]], [[1, 2], [0, 1]])]
+    base = [np.array([[2.0, 1, 0], [1, 1, 0], [3, 1, 1]]), np.array([[1.0, 0, 2], [0, 1, 1], [1, 1, 4]])]
+    base.append(base[0] @ base[1])
+    if n == 3:
+        return base
+    out = []
+    for b in base:
+        M = np.identity(n)
+        M[n - 3:, n - 3:] = b
+        M[0, n - 1] = 1.0
+        out.append(M)
+    E = elementary_alphabet(n)
+    P = np.identity(n)
+    for k in (0, 3, 2 * n, 2 * n + 3, 4 * n + 1):
+        P = P @ E[k % len(E)]
+    out.append(P)
+    return out
+
+
+def adjoint_option_alphabet(n):
+    if n == 2:
+        A = [np.array(m, dtype="float64") for m in int_mats_2x2(2, (1, -1))][::4]
+    elif n == 3:
+        A = elementary_alphabet(n)
+    else:
+        A = elementary_alphabet(n)[::5]
+    return slz_extras(n) + A + gl_extras(n)
+
+
+def _adj_pack(M, how):
+    return np.array(M, dtype={"f64": "float64", "f32": "float32", "i64": "int64", "i32": "int32"}[how])
+
+
+def case_adjoint_options(case):
+    """gln_adjoint / sln_adjoint of one matrix in one input dtype under EVERY combination of inv= / like= / dtype=:
+    value against the oracle (the matrix of X -> g X g^-1 in the elementary-matrix basis), identity, homomorphism
+    against the SL(n,Z) partners in the same dtype and with the same options, Killing / trace form."""
+    from geometry_tools import lie
+    n, i, pack = case["n"], case["i"], case["pack"]
+    alpha = adjoint_option_alphabet(n)
+    g = alpha[i]
+    integer = pack in ("i64", "i32")
+    gi = R.inverse(g)                                       # exact (rational arithmetic), float64
+    gi_integral = bool(np.array_equal(gi, np.round(gi)))
+    partners = slz_extras(n)[:3]
+    tol = 2e-5 if pack == "f32" else TOL
+    K = R.sl_trace_form(n)
+    v, t = [], 0
+    wants = {"gln_adjoint": R.gl_adjoint(g, gi), "sln_adjoint": R.sl_adjoint(g, gi)}
+    pw = {"gln_adjoint": [(R.gl_adjoint(h, R.inverse(h)), R.gl_adjoint(g @ h, R.inverse(g @ h))) for h in partners],
+          "sln_adjoint": [(R.sl_adjoint(h, R.inverse(h)), R.sl_adjoint(g @ h, R.inverse(g @ h))) for h in partners]}
+    ncombo = 0
+    for inv_how, like_how, dt_how in itertools.product(ADJ_INV, ADJ_LIKE, ADJ_DTYPE):
+        if like_how == "input" and integer and dt_how == "none":
+            continue        # like=<integer array> and no dtype is an explicit request for an integer-typed result
+        if inv_how == "same-dtype" and integer and not gi_integral:
+            continue        # the inverse of this matrix has no integer packaging
+
+        def kwargs(M):
+            kw = {}
+            if inv_how != "none":
+                Mi = R.inverse(np.asarray(M, dtype="float64"))
+                kw["inv"] = np.array(Mi, dtype="float64") if inv_how == "float64" else _adj_pack(Mi, pack)
+            if like_how == "float64-array":
+                kw["like"] = np.identity(n)
+            elif like_how == "pyfloat":
+                kw["like"] = 1.0
+            elif like_how == "input":
+                kw["like"] = M
+            if dt_how == "str":
+                kw["dtype"] = "float64"
+            elif dt_how == "type":
+                kw["dtype"] = np.float64
+            return kw
+        combo = "inv=%s,like=%s,dtype=%s" % (inv_how, like_how, dt_how)
+        cls = "%s%s%s" % ("inv+" if inv_how != "none" else "", "like+" if like_how != "none" else "", "dtype" if dt_how != "none" else "")
+        cls = cls.rstrip("+") or "defaults"
+        ncombo += 1
+        for nm in ("gln_adjoint", "sln_adjoint"):
+            f = getattr(lie, nm)
+            where = "%s(%s as %s, %s)" % (nm, fmt(g), pack, combo)
+
+            def img(M):
+                Mp = _adj_pack(M, pack)
+                snap = Mp.copy()
+                r = quiet(lambda: np.asarray(f(Mp, **kwargs(Mp))))
+                if not np.array_equal(Mp, snap):
+                    v.append({"key": "adjoint-options/%s/input-mutated" % nm, "msg": "%s changed its argument" % where})
+                if r.dtype == object:
+                    r = r.astype("float64")
+                return r
+            got = guard(v, "adjoint-options/%s/%s/%s" % (nm, cls, "integer" if integer else pack), lambda: img(g))
+            t += 1
+            if got is None:
+                continue
+            ok, d = close(got, wants[nm], tol)
+            if not ok:
+                v.append({"key": "adjoint-options/%s/value/%s/%s" % (nm, cls, "integer" if integer else pack),
+                          "msg": "%s differs from the matrix of X -> gXg^-1 by %.3g (dtype %s):\n%r" % (where, d, got.dtype, got)})
+                continue
+            if nm == "sln_adjoint":
+                ok, d = close(got.T @ K @ got, K, tol)
+                if not ok:
+                    v.append({"key": "adjoint-options/sln_adjoint/killing-form/%s" % cls, "msg": "%s: Ad(g)^T K Ad(g) != K (%.3g)" % (where, d)})
+            for h, (wh, wgh) in zip(partners, pw[nm]):
+                fh = guard(v, "adjoint-options/%s/%s/%s" % (nm, cls, "integer" if integer else pack), lambda: img(h))
+                fgh = guard(v, "adjoint-options/%s/%s/%s" % (nm, cls, "integer" if integer else pack), lambda: img(g @ h))
+                t += 2
+                if fh is None or fgh is None:
+                    break
+                ok, d = close(fgh, got @ fh, tol * (1 + float(np.abs(got).max())))
+                if not ok:
+                    v.append({"key": "adjoint-options/%s/homomorphism/%s/%s" % (nm, cls, "integer" if integer else pack),
+                              "msg": "%s: Ad(gh) != Ad(g)Ad(h) for h = %s (residual %.3g)" % (where, fmt(h), d)})
+                    break
+        if len(v) > 6:
+            break
+    if i == 0:
+        for nm, m in (("gln_adjoint", n * n), ("sln_adjoint", n * n - 1)):
+            one = guard(v, "adjoint-options/%s(I)" % nm, lambda: quiet(lambda: np.asarray(getattr(lie, nm)(_adj_pack(np.identity(n), pack)))))
+            t += 1
+            if one is not None and not close(np.asarray(one).astype("float64"), np.identity(m))[0]:
+                v.append({"key": "adjoint-options/%s/identity/%s" % (nm, "integer" if integer else pack), "msg": "%s(I as %s) = %s" % (nm, pack, fmt(one))})
+    return {"v": v[:8], "t": t, "o": "%d|%s|%d|%d|%s" % (n, pack, ncombo, len(v), np.round(wants["gln_adjoint"], 3).tolist()), "nt": not np.array_equal(g, np.identity(n))}
+
+
+# ------------------------------------------------------------------------------------------
 # 5. SL(2,C) -> SO(3,1) and the action on Hermitian matrices
 # ------------------------------------------------------------------------------------------
 def case_sl2c(case):
@@ -845,6 +985,24 @@ def run(ctx):
                     domains={"n=2": "all integer matrices with entries in [-2,2], det +-1 (%d) + 3 non-unimodular" % len(int_mats_2x2(2, (1, -1))),
                              "n>=3": "elementary matrices E_ij(+-1), adjacent transpositions, a sign change" + ("" if q else ", a third of their pairwise products") + " + 3 non-unimodular",
                              "pairs": "every ordered pair of the alphabet"}, chunk=4)
+    if want("adjoint"):
+        cases = []
+        for n in (2, 3, 4):
+            al = adjoint_option_alphabet(n)
+            for i, g in enumerate(al):
+                for pack in ADJ_PACKS:
+                    if pack in ("i64", "i32") and not np.array_equal(g, np.round(g)):
+                        continue
+                    cases.append({"n": n, "i": i, "pack": pack})
+        ctx.assume("adjoint options: matrices are ndarrays (nested lists raise AttributeError in gln_adjoint / sln_adjoint: outside the input kind); "
+                   "like=<integer array> without dtype= is an explicit request for an integer-typed result and is not exercised; every other "
+                   "combination of inv= / like= / dtype= must give the matrix the defaults give, for float64, float32, int64 and int32 input")
+        ctx.tolerances["adjoint options"] = "1e-9 (1 + max|exp|); 2e-5 for float32 input"
+        ctx.product("adjoint-options", "checks.c17:case_adjoint_options", cases,
+                    domains={"n": [2, 3, 4], "matrices": "SL(n,Z) elements with non-symmetric (and not bit-exactly invertible) inverses, a slice of the integer / "
+                                                         "elementary alphabets, 3 non-unimodular elements of GL(n)",
+                             "input dtypes": ADJ_PACKS, "inv=": ADJ_INV, "like=": ADJ_LIKE, "dtype=": ADJ_DTYPE,
+                             "clauses": "value vs oracle, identity, homomorphism against 3 SL(n,Z) partners with the same dtype and options, Killing form"}, chunk=2)
     if want("sl2c"):
         cases = [{"i": i} for i in range(len(gaussian_sl2()))]
         ctx.product("sl2c-alphabet", "checks.c17:case_sl2c", cases,
